@@ -11,12 +11,23 @@
                               round trip, and a valid 96-bit coefficient (the written-out exact path of
                               Decimal::from_str, validated bit for bit by the correspondence); longer literals are
                               rust_decimal's from_str (an oracle)
-    The print / re-read round trip relies
+      C19_i64_display_roundtrip / C19_number_display_roundtrip
+                              END TO END (white-space stripping, tokenizer rows of the regenerated tables, parser, evaluator):
+                              the Display text of every i64 except i64::MIN -- optional '-' and the digits of the magnitude --
+                              evaluates to exactly that value in eval_i64, and to Integer of that value (never a Float) in
+                              eval_number, for every placeholder and every libm; the text of i64::MIN is rejected by eval_i64
+      C19_literal_end_to_end  first clause END TO END through the public entry points (stripping, tokenizer rows of the
+                              regenerated tables in all scanning modes, parser, evaluator; any placeholder, any library):
+                              DIGITS and DIGITS.DIGITS of any length evaluate in eval_f64 to the correctly rounded quotient, in
+                              eval_number to the Float of the same rounding, in eval_complex to that real number; with at most
+                              28 digits in all, eval_decimal returns exactly the written decimal, and its negation after a prefix
+                              minus (the shape Display prints for a Decimal)
+    For eval_f64 / eval_decimal / eval_complex the print / re-read round trip relies
     on std Display printing a shape this grammar reads and on std's own round-trip guarantee: both are
     exercised by the correspondence (format!("{}", v) of pool and random values fed back in). *)
 From Coq Require Import ZArith NArith Reals List Bool.
 From Flocq Require Import Core.Core IEEE754.BinarySingleNaN.
-From SC Require Import Base.Res Base.F64 Base.RustInt Base.Dec Base.Num Base.Oracle Lang.Lexer Lang.Literal Proofs.LiteralFacts Proofs.ShowFacts.
+From SC Require Import Base.Res Base.F64 Base.RustInt Base.Dec Base.Num Base.Oracle Lang.Lexer Lang.Literal Proofs.LiteralFacts Proofs.ShowFacts Proofs.ShowRoundtrip Proofs.LiteralRun Eval.Run.
 Import ListNotations.
 
 Theorem C19_f64_literal_text :
@@ -68,6 +79,44 @@ Proof.
   split; [exact parse_show_i64|]. repeat split; vm_compute; reflexivity.
 Qed.
 Print Assumptions C19_i64_text_roundtrip.
+
+(** second clause, end to end for eval_i64 and for eval_number's Integer results: the Display text of any i64 other than
+    i64::MIN goes through stripping, lexing, parsing and evaluation and comes back unchanged *)
+Theorem C19_i64_display_roundtrip :
+  (forall (L : libm) (p z : Z), (- (2 ^ 63 - 1) <= z <= 2 ^ 63 - 1)%Z -> run_i64 L (display_i64 z) p = Ok z) /\
+  (forall (L : libm) (p : Z), run_i64 L (display_i64 (- 2 ^ 63)) p = Err) /\
+  display_i64 (-1205) = [45; 49; 50; 48; 53]%N /\ display_i64 0 = [48]%N.
+Proof.
+  split; [exact i64_display_roundtrip|]. split; [exact i64_min_text_rejected|]. split; vm_compute; reflexivity.
+Qed.
+Print Assumptions C19_i64_display_roundtrip.
+
+Theorem C19_number_display_roundtrip :
+  forall (L : libm) (p : number) (z : Z), (- (2 ^ 63 - 1) <= z <= 2 ^ 63 - 1)%Z -> run_num L (display_i64 z) p = Ok (Int z).
+Proof. exact number_display_roundtrip. Qed.
+Print Assumptions C19_number_display_roundtrip.
+
+(** first clause, end to end through the public entry points *)
+Theorem C19_literal_end_to_end :
+  forall ip fp, ip <> [] -> forallb is_digit ip = true -> forallb is_digit fp = true ->
+    let v := f64_of_decimal (digits_val 0%N (ip ++ fp)) (N.of_nat (length fp)) in
+    (forall (L : libm) p, run_f64 L ip p = Ok (f64_of_decimal (digits_val 0%N ip) 0) /\ run_f64 L (ip ++ ch_dot :: fp) p = Ok v) /\
+    (forall (L : libm) p, run_num L (ip ++ ch_dot :: fp) p = Ok (Flt v)) /\
+    (forall (C : cpxlib) p, run_cpx C (ip ++ ch_dot :: fp) p = Ok (v, fzero)) /\
+    ((length ip + length fp <= 28)%nat -> forall (D : declib) p,
+       let d := {| d_neg := false; d_coef := digits_val 0%N (ip ++ fp); d_scale := N.of_nat (length fp) |} in
+       run_dec D ip p = Ok {| d_neg := false; d_coef := digits_val 0%N ip; d_scale := 0%N |} /\
+       run_dec D (ip ++ ch_dot :: fp) p = Ok d /\ run_dec D (45%N :: ip ++ ch_dot :: fp) p = Ok (dec_neg d)).
+Proof.
+  intros ip fp Hne Hi Hf v. split; [|split; [|split]].
+  - intros L p. split; [now apply f64_integer_literal_run|now apply f64_point_literal_run].
+  - intros L p. now apply number_point_literal_run.
+  - intros C p. now apply complex_point_literal_run.
+  - intros Hl D p d. split.
+    + apply decimal_integer_literal_run; [assumption|assumption|]. apply Nat.le_trans with (2 := Hl). apply Nat.le_add_r.
+    + exact (decimal_point_literal_run D p ip fp Hne Hi Hf Hl).
+Qed.
+Print Assumptions C19_literal_end_to_end.
 
 Theorem C19_number_literal :
   forall t im, conv_num (LNum t im) = if has_point t then option_map Flt (parse_f64 t) else option_map Int (parse_i64 t).
